@@ -77,7 +77,7 @@ def run(tier: str, seed: int, reg: Any, jobs: int = 16) -> list:
         if got != exp:
             fails.append({"inputs": {"rsa_keys": k}, "detail": "RKHTv1 RKTH differs from the documented construction", "obligation": "rkth-equals-documented-construction"})
     hab = _hab_srk_from_certificates(rnd)
-    return [hab, {"name": "RKTH over real keys, 1..4 keys, four ways of supplying them", "function": "spsdk.utils.crypto.rkht:RKHT.from_keys",
+    return [hab, _cert_block_v21_round_trip(rnd, tier), _cert_block_v1_round_trip(rnd, tier), {"name": "RKTH over real keys, 1..4 keys, four ways of supplying them", "function": "spsdk.utils.crypto.rkht:RKHT.from_keys",
              "method": "P-256/P-384 keys incl. leading-zero coordinates (searched), RSA-2048; hashlib reference", "bound": f"{n} key sets x 4 encodings",
              "cases": n, "label": "bounded", "failures": fails}]
 
@@ -153,3 +153,195 @@ def _items(blob: bytes) -> list:
         out.append((pos, ln))
         pos += ln
     return out
+
+
+class _Signer:
+    """Signature provider over a cryptography private key (what IskCertificate needs: signature_length and get_signature -> raw r||s)."""
+
+    def __init__(self, priv: Any) -> None:
+        from spsdk.crypto.keys import PrivateKeyEcc
+
+        self.key = PrivateKeyEcc(priv)
+        self.signature_length = self.key.signature_size
+
+    def get_signature(self, data: bytes) -> bytes:
+        return self.key.sign(data)
+
+
+def _cert_block_v21_round_trip(rnd: Any, tier: str) -> dict:
+    """Certificate block v2.1 with real keys: decoded by hand (header, flags, hash table, root public key, ISK certificate), the RoT hash is the
+    documented construction, the ISK signature verifies - with cryptography directly - under the root key the record announces over exactly
+    record || ISK header || ISK public key || user data, and parse(export) exports the same bytes and the same RoT hash."""
+    import struct
+
+    from cryptography.exceptions import InvalidSignature
+    from cryptography.hazmat.primitives import hashes
+    from cryptography.hazmat.primitives.asymmetric import ec
+    from cryptography.hazmat.primitives.asymmetric.utils import encode_dss_signature
+
+    from spsdk.crypto.keys import PublicKeyEcc
+    from spsdk.utils.crypto.cert_blocks import CertBlockV21
+
+    fails: list = []
+    n = 0
+    for _ in range(24 if tier == "quick" else 400):
+        n += 1
+        curve = rnd.choice([ec.SECP256R1(), ec.SECP384R1()])
+        cs = curve.key_size // 8
+        k = rnd.randrange(1, 5)
+        used = rnd.randrange(k)
+        roots = [ec.derive_private_key(rnd.randrange(1, 1 << 190), curve) for _ in range(k)]
+        with_isk = rnd.random() < 0.7
+        isk_curve = rnd.choice([ec.SECP256R1(), ec.SECP384R1()])
+        isk_priv = ec.derive_private_key(rnd.randrange(1, 1 << 190), isk_curve)
+        user = bytes(rnd.getrandbits(8) for _ in range(rnd.choice([0, 0, 4, 16, 48, 96])))
+        raw = rnd.random() < 0.5
+        inputs = {"curve": curve.name, "root_keys": k, "used_root": used, "isk": (isk_curve.name if with_isk else None), "user_data_len": len(user),
+                  "roots_supplied_as": "raw bytes" if raw else "PublicKeyEcc"}
+        problems: list = []
+        try:
+            pubs = [PublicKeyEcc(p.public_key()) for p in roots]
+            cb = CertBlockV21(root_certs=[p.export() for p in pubs] if raw else pubs, ca_flag=not with_isk, used_root_cert=used, constraints=rnd.getrandbits(16),
+                              signature_provider=_Signer(roots[used]) if with_isk else None, isk_cert=PublicKeyEcc(isk_priv.public_key()) if with_isk else None,
+                              user_data=user or None)
+            cb.calculate()
+            blob = cb.export()
+            magic, minor, major, size = struct.unpack_from("<4s2HL", blob, 0)
+            if (magic, major, minor) != (b"chdr", 2, 1) or size != len(blob):
+                problems.append(f"header says {magic!r} v{major}.{minor} size {size}, the block has {len(blob)} bytes")
+            (flags,) = struct.unpack_from("<L", blob, 12)
+            if (flags >> 4) & 0xF != k or (flags >> 8) & 0xF != used or flags & 0xF != (1 if cs == 32 else 2) or bool(flags >> 31) != (not with_isk):
+                problems.append(f"flags {flags:#x} do not announce {k} keys / used root {used} / curve / CA")
+            off = 16
+            hfun = hashlib.sha256 if cs == 32 else hashlib.sha384
+            xy = [p.public_key().public_numbers() for p in roots]
+            hs = [hfun(q.x.to_bytes(cs, "big") + q.y.to_bytes(cs, "big")).digest() for q in xy]
+            if k > 1:
+                if blob[off: off + k * cs] != b"".join(hs):
+                    problems.append("hash table differs from the hashes of X||Y of the root keys in order")
+                off += k * cs
+            root_xy = xy[used].x.to_bytes(cs, "big") + xy[used].y.to_bytes(cs, "big")
+            if blob[off: off + 2 * cs] != root_xy:
+                problems.append("the root public key in the record is not the selected root key")
+            off += 2 * cs
+            exp_rkth = hs[0] if k == 1 else hfun(b"".join(hs)).digest()
+            if cb.rkth != exp_rkth:
+                problems.append("RoT hash differs from the documented construction")
+            if with_isk:
+                rec_end = off
+                sig_off, _cons, iflags = struct.unpack_from("<3L", blob, off)
+                ics = isk_curve.key_size // 8
+                ip = isk_priv.public_key().public_numbers()
+                if blob[off + 12: off + 12 + 2 * ics] != ip.x.to_bytes(ics, "big") + ip.y.to_bytes(ics, "big"):
+                    problems.append("ISK public key is not where the ROM reads it")
+                if blob[off + 12 + 2 * ics: off + sig_off] != user or bool(iflags >> 31) != bool(user) or iflags & 0xF != (1 if ics == 32 else 2):
+                    problems.append(f"ISK user data / flags {iflags:#x} / signature offset {sig_off} do not describe the certificate")
+                sig = blob[off + sig_off: off + sig_off + 2 * cs]
+                if off + sig_off + 2 * cs != len(blob):
+                    problems.append("signature is not the last 2 x coordinate-size bytes")
+                try:
+                    roots[used].public_key().verify(encode_dss_signature(int.from_bytes(sig[:cs], "big"), int.from_bytes(sig[cs:], "big")),
+                                                    blob[12: off + sig_off], ec.ECDSA(hashes.SHA256() if cs == 32 else hashes.SHA384()))
+                except InvalidSignature:
+                    problems.append("ISK signature does not verify under the announced root key over record || ISK header || ISK key || user data")
+                del rec_end
+            elif off != len(blob):
+                problems.append(f"{len(blob) - off} unexplained bytes after the root key record")
+            back = CertBlockV21.parse(blob)
+            if back.export() != blob:
+                problems.append("parse(export(x)).export() differs from export(x)")
+            if back.rkth != exp_rkth:
+                problems.append("RoT hash of the parsed block differs")
+        except Exception as e:  # pylint: disable=broad-except
+            problems.append(f"{type(e).__name__}: {e}")
+        if problems and len(fails) < 4:
+            fails.append({"inputs": inputs, "detail": "; ".join(problems), "obligation": "cert-block-v21-decoded-by-hand-and-round-trip"})
+    return {"name": "certificate block v2.1 decoded by hand, ISK signature verified independently, parse/export round trip",
+            "function": "spsdk.utils.crypto.cert_blocks:CertBlockV21.export / parse", "method": "P-256/P-384 roots (1..4, every used index), ISK of either curve or "
+            "none, user data 0..96 B, roots as objects or raw bytes; struct + hashlib + cryptography reference", "bound": f"{n} blocks", "cases": n,
+            "label": "bounded", "failures": fails}
+
+
+def _cert_block_v1_round_trip(rnd: Any, tier: str) -> dict:
+    """Certificate block v1 with generated RSA certificates (chains of 1..3): decoded by hand, RKTH = SHA-256 of the 4-slot table whatever slot
+    the root sits in and whichever chain follows it, fuses are the little-endian words of that hash, parse(export) exports the same bytes."""
+    import struct
+
+    from cryptography import x509
+    from cryptography.hazmat.primitives.asymmetric import rsa
+
+    from spsdk.crypto.certificate import Certificate, generate_name
+    from spsdk.crypto.keys import PrivateKeyRsa
+    from spsdk.utils.crypto.cert_blocks import CertBlockV1
+
+    fails: list = []
+    n = 0
+    keys = [PrivateKeyRsa(rsa.generate_private_key(65537, 2048)) for _ in range(4)]
+
+    def mk(subject: str, issuer: str, subj_key: Any, iss_key: Any, ca: bool) -> Any:
+        return Certificate.generate_certificate(generate_name({"COMMON_NAME": subject}), generate_name({"COMMON_NAME": issuer}), subj_key.get_public_key(), iss_key,
+                                                serial_number=rnd.randrange(1, 1 << 60), extensions=[x509.BasicConstraints(ca=ca, path_length=None)])
+
+    def rkh(key: Any) -> bytes:
+        nums = key.get_public_key().key.public_numbers()
+        return hashlib.sha256(nums.n.to_bytes((nums.n.bit_length() + 7) // 8, "big") + nums.e.to_bytes((nums.e.bit_length() + 7) // 8, "big")).digest()
+
+    for _ in range(6 if tier == "quick" else 60):
+        n += 1
+        chain_len = rnd.randrange(1, 4)
+        slot = rnd.randrange(4)
+        others = rnd.randrange(0, 4)
+        align = rnd.choice([16, 16, 4, 1])
+        inputs = {"chain_length": chain_len, "root_slot": slot, "other_root_hashes": others, "alignment": align}
+        problems: list = []
+        try:
+            ck = [keys[0]] + [keys[1 + (i % 3)] for i in range(chain_len - 1)]
+            certs = []
+            for i in range(chain_len):
+                certs.append(mk(f"c{i}", f"c{max(i - 1, 0)}", ck[i], ck[max(i - 1, 0)], ca=i < chain_len - 1))
+            blk = CertBlockV1(build_number=rnd.getrandbits(16))
+            blk.alignment = align
+            table = [bytes(32)] * 4
+            for j in range(others):
+                idx = (slot + 1 + j) % 4
+                if idx == slot:
+                    continue
+                table[idx] = hashlib.sha256(bytes([j, idx])).digest()
+                blk.set_root_key_hash(idx, table[idx])
+            table[slot] = rkh(keys[0])
+            blk.set_root_key_hash(slot, certs[0])
+            for c in certs:
+                blk.add_certificate(c)
+            blob = blk.export()
+            sig, _maj, _min, hlen, _fl, _bn, _il, count, tlen = struct.unpack_from("<4s2H6I", blob, 0)
+            if sig != b"cert" or hlen != 32 or count != chain_len:
+                problems.append(f"header {sig!r} length {hlen} count {count}")
+            off = 32
+            for i in range(chain_len):
+                (ln,) = struct.unpack_from("<I", blob, off)
+                der = blob[off + 4: off + 4 + ln]
+                if der != certs[i].export():
+                    problems.append(f"certificate {i} is not stored behind its length word")
+                off += 4 + ln
+            if off - 32 != tlen:
+                problems.append(f"certificate table length {tlen} but the table takes {off - 32} bytes")
+            if blob[off: off + 128] != b"".join(table):
+                problems.append("root key hash table differs from the slots that were set")
+            if len(blob) % align or any(blob[off + 128:]):
+                problems.append("padding behind the table is not zero up to the alignment")
+            exp = hashlib.sha256(b"".join(table)).digest()
+            if blk.rkth != exp or blk.rkth_fuses != list(struct.unpack("<8I", exp)):
+                problems.append("RKTH / fuse words differ from SHA-256 over the 4-slot table")
+            if blk.rkh_index != slot:
+                problems.append(f"rkh_index {blk.rkh_index} is not the slot {slot} of the root certificate")
+            back = CertBlockV1.parse(blob)
+            back.alignment = align
+            if back.export() != blob or back.rkth != exp:
+                problems.append("parse(export(x)) differs (bytes or RKTH)")
+        except Exception as e:  # pylint: disable=broad-except
+            problems.append(f"{type(e).__name__}: {e}")
+        if problems and len(fails) < 4:
+            fails.append({"inputs": inputs, "detail": "; ".join(problems), "obligation": "cert-block-v1-decoded-by-hand-and-round-trip"})
+    return {"name": "certificate block v1 decoded by hand and parse/export round trip", "function": "spsdk.utils.crypto.cert_blocks:CertBlockV1.export / parse",
+            "method": "generated RSA-2048 certificate chains (1..3), root in every slot, 0..3 other hashes, alignments 16/4/1; struct + hashlib reference",
+            "bound": f"{n} blocks", "cases": n, "label": "bounded", "failures": fails}
